@@ -469,6 +469,10 @@ pub fn tx_monitors(h: &Hist, ms: &mut MonState, b: &Obs, line: &str, res: &str, 
                         let real = h.w.rd(lp);
                         let entry = ms.ledger.entry.get(&(tx.sender.clone(), lp.clone())).copied().unwrap_or(0);
                         s += &format!(" {} {} {}", entry, ms.ledger.hist_str(&tx.sender, lp), ms.ledger.hist_str("fm", lp));
+                        // every other user's recorded weights for this LP token (independent of the contract's total)
+                        let others: Vec<String> = ms.ledger.hist.keys().filter(|(u, l)| l == lp && u != "fm" && *u != tx.sender).map(|(u, _)| u.clone()).collect();
+                        s += &format!(" {}", others.len());
+                        for u in others.iter() { s += &format!(" {}", ms.ledger.hist_str(u, lp)); }
                         let farms: Vec<_> = b.farms.iter().filter(|f| f.lp_denom == real).collect();
                         s += &format!(" {}", farms.len());
                         for f in farms {
@@ -532,6 +536,25 @@ pub fn tx_monitors(h: &Hist, ms: &mut MonState, b: &Obs, line: &str, res: &str, 
                         out.push(format!("mon_farm_autoclose {} {} {} {}", remaining, r.epoch.start_time.nanos(), c.farm_expiration_time, b.now_ns));
                     }
                 }
+            }
+        }
+        // C11 / C20: farms closed by this transaction (explicitly, or automatically by a farm creation): every
+        // owner receives the unclaimed remainders; with one injected bank failure at most one refund is lost
+        if ok && matches!(tx.kind.as_str(), "closefarm" | "createfarm") {
+            let mut groups: BTreeMap<(String, String), u128> = BTreeMap::new();
+            for f in b.farms.iter() {
+                let gone = match a.farms.iter().find(|g| g.identifier == f.identifier) {
+                    None => true,
+                    Some(g) => g.owner != f.owner || g.start_epoch != f.start_epoch || g.claimed_amount < f.claimed_amount,
+                };
+                let owner = h.w.n(f.owner.as_str());
+                if gone && owner != tx.sender {
+                    *groups.entry((owner, h.w.cd(&f.farm_asset.denom))).or_default() += f.farm_asset.amount.u128().saturating_sub(f.claimed_amount.u128());
+                }
+            }
+            if !groups.is_empty() {
+                let missing = groups.iter().filter(|((o, d), exp)| delta(b, a, o, d) < **exp as i128).count();
+                out.push(format!("mon_close_refunds {} {} {}", groups.len(), missing, ms.fault_active as u8));
             }
         }
         // C11: an explicit close refunds exactly the unclaimed remainder to the farm's owner and to nobody else
